@@ -148,7 +148,7 @@ impl Checker for C09Checker {
 
 // ---------------------------------------------------------------------------------------------------
 
-const ID_EXPRS: &[usize] = &[20, 21, 22, 23, 2, 3, 10, 12, 14, 24, 25, 27, 30, 35, 38, 46];
+const ID_EXPRS: &[usize] = &[20, 21, 22, 23, 2, 3, 10, 12, 14, 24, 25, 27, 30, 35, 38, 46, 48, 49];
 
 pub fn random_trace(seed: u64) -> Trace {
     let mut rng = Rng::stream(seed, "c09-workload");
